@@ -375,6 +375,12 @@ def hist_execution(case, acc):
     holds at the time."""
     from rig.machine_control.machine_controller import SpiNNakerLoadingError
     steps = case["steps"]
+    if len(steps) >= 10:
+        # replayable by name rather than by 140 recorded steps
+        case = dict(hist=True, long=True, wait=case["wait"], steps=steps)
+        rcase = dict(hist=True, long=True, wait=case["wait"])
+    else:
+        rcase = case
     sim = SimMachine(repo(), 2, 2, buffer_size=16)
     sim.full_sync = False
     path = os.path.join(tmpdir(), "hist_%d.aplx" % os.getpid())
@@ -399,14 +405,20 @@ def hist_execution(case, acc):
                                       wait=case["wait"])
             except SpiNNakerLoadingError as e:
                 acc.violation(dict(kind="history_loading_error"),
-                              case, "load %d of the history failed on a "
+                              rcase, "load %d of the history failed on a "
                               "fault-free machine: %s" % (i, e))
+                return
+            if sim.errors:
+                acc.violation(dict(kind="history_malformed_fill"),
+                              rcase,
+                              "load %d of the history: machine saw %s"
+                              % (i, sim.errors[0]))
                 return
             bad = [(xy, p) for xy, ps in tg.items() for p in ps
                    if not loaded(sim, (xy, p), data,
                                  ST_WAIT if case["wait"] else ST_RUN)]
             if bad:
-                acc.violation(dict(kind="history_wrong_image"), case,
+                acc.violation(dict(kind="history_wrong_image"), rcase,
                               "load %d of the history: cores %r do not hold "
                               "the %d bytes the file held when "
                               "load_application was called (they hold %r)"
@@ -418,6 +430,11 @@ def hist_execution(case, acc):
 
 
 def part_hist(params, tier, acc):
+    # a long life of one controller: 140 consecutive loads (the flood-fill
+    # identifier is a small cyclic counter)
+    long_steps = [[1 + (i % 3), 20 + 4 * (i % 2),
+                   [[i % 2, 0, [1 + i % 3]]]] for i in range(140)]
+    hist_execution(dict(hist=True, steps=long_steps, wait=False), acc)
     for steps in HIST_STEPS:
         for wait in (False, True):
             st = [[g, sz, [[x, y, ps] for (x, y), ps in sorted(t.items())]]
@@ -458,7 +475,10 @@ def replay(case, acc):
 
 def _replay(case, acc):
     if case.get("hist"):
-        hist_execution(case, acc)
+        if case.get("long"):
+            part_hist({}, "quick", acc)
+        else:
+            hist_execution(case, acc)
         return
     cfg = case["cfg"]
     ch = Chooser(case["choices"])
